@@ -27,7 +27,7 @@ theorem violation_closed (s : S) (code : Nat) (hf : s.cfg.failByDrop = true) :
 theorem consume_true (s : S) (h : Hdr) (c : Bytes) (hf : s.cfg.failByDrop = true) (hst : s.st ≠ .closed)
     (ht : (consume s h c).2 = true) :
     (consume s h c).1.ptr = s.ptr + c.length ∧ (consume s h c).1.cur = s.cur ∧ (consume s h c).1.st = s.st ∧
-    (consume s h c).1.cfg = s.cfg := by
+    (consume s h c).1.cfg = s.cfg ∧ (consume s h c).1.wasClean = s.wasClean := by
   by_cases hc : h.opcode > 7
   · simp [consume, onFrameData, hc]
   · by_cases hon : (s.utf8On && !s.msgCompressed) = true
@@ -379,14 +379,16 @@ theorem drain_fuel (F F' : Nat) (s : S) (buf : Bytes) (hwf : WF s) (hf : s.cfg.f
     | zero => omega
     | succ F' =>
       unfold drain
-      dsimp only
-      by_cases hc : ((processData s buf).2.2 && decide ((processData s buf).1.st ≠ .closed)) = true
-      · simp only [hc, if_true]
-        simp only [Bool.and_eq_true, decide_eq_true_eq] at hc
-        have hp := processData_true s buf hwf hf hst hc.1
-        exact ih F' _ _ hp.2.1 (by rw [(processData_Ext s buf).cfg]; exact hf) hc.2 (by omega) (by omega)
-      · simp only [hc]
-        simp
+      by_cases hwc : s.wasClean = true
+      · simp only [hwc, if_true]
+      · simp only [hwc, if_false]
+        by_cases hc : ((processData s buf).2.2 && decide ((processData s buf).1.st ≠ .closed)) = true
+        · simp only [hc, if_true]
+          simp only [Bool.and_eq_true, decide_eq_true_eq] at hc
+          have hp := processData_true s buf hwf hf hst hc.1
+          exact ih F' _ _ hp.2.1 (by rw [(processData_Ext s buf).cfg]; exact hf) hc.2 (by omega) (by omega)
+        · simp only [hc]
+          simp
 
 /-! ### one `processData` step on `buf` versus on `buf ++ b` -/
 
@@ -419,7 +421,7 @@ theorem processPayload_seg_full (s : S) (h : Hdr) (buf b : Bytes) (hf : s.cfg.fa
     have ct := ct hC
     by_cases hend : C.1.ptr = h.length
     · simp only [hend, if_true]
-      have hfc := onFrameEnd_false_closed C.1 h (by rw [ct.2.2.2]; exact hf)
+      have hfc := onFrameEnd_false_closed C.1 h (by rw [ct.2.2.2.1]; exact hf)
       generalize onFrameEnd C.1 h = r2 at hfc
       by_cases h2 : r2.2 = true
       · simp only [h2, Bool.not_true, Bool.false_eq_true, if_false]
@@ -450,7 +452,8 @@ theorem processPayload_seg_part (s : S) (h : Hdr) (buf b : Bytes) (hcur : s.cur 
     (hlen : buf.length < h.length - s.ptr) :
     ((processPayload s h buf).1.st = .closed ∧ DeadSim (processPayload s h buf).1 (processPayload s h (buf ++ b)).1) ∨
     ((processPayload s h buf).2.2 = false ∧ (processPayload s h buf).1.st ≠ .closed ∧ WF (processPayload s h buf).1 ∧
-      (processPayload s h buf).1.cfg = s.cfg ∧ (processPayload s h buf).2.1 = [] ∧
+      (processPayload s h buf).1.cfg = s.cfg ∧ (processPayload s h buf).1.wasClean = s.wasClean ∧
+      (processPayload s h buf).2.1 = [] ∧
       (processData (processPayload s h buf).1 b = processPayload s h (buf ++ b) ∨
         DeadSim (processData (processPayload s h buf).1 b).1 (processPayload s h (buf ++ b)).1)) := by
   rw [processPayload_finish, processPayload_finish]
@@ -466,7 +469,7 @@ theorem processPayload_seg_part (s : S) (h : Hdr) (buf b : Bytes) (hcur : s.cur 
     have hr : finishPayload (consume s h buf) h [] = ((consume s h buf).1, [], false) := by
       unfold finishPayload; simp [hC, hne]
     rw [hr]
-    refine Or.inr ⟨rfl, by rw [ct.2.2.1]; exact hst, ?_, ct.2.2.2, rfl, ?_⟩
+    refine Or.inr ⟨rfl, by rw [ct.2.2.1]; exact hst, ?_, ct.2.2.2.1, ct.2.2.2.2, rfl, ?_⟩
     · intro h' hh
       rw [ct.2.1, hcur] at hh
       simp only [Option.some.injEq] at hh
@@ -506,7 +509,7 @@ theorem processData_seg (s : S) (buf b : Bytes) (hwf : WF s) (hf : s.cfg.failByD
       (processData s (buf ++ b)).2.1 = (processData s buf).2.1 ++ b ∧ (processData s (buf ++ b)).2.2 = true) ∨
     ((processData s buf).1.st = .closed ∧ DeadSim (processData s buf).1 (processData s (buf ++ b)).1) ∨
     ((processData s buf).2.2 = false ∧ (processData s buf).1.st ≠ .closed ∧ WF (processData s buf).1 ∧
-      (processData s buf).1.cfg = s.cfg ∧
+      (processData s buf).1.cfg = s.cfg ∧ (processData s buf).1.wasClean = s.wasClean ∧
       (processData (processData s buf).1 ((processData s buf).2.1 ++ b) = processData s (buf ++ b) ∨
         DeadSim (processData (processData s buf).1 ((processData s buf).2.1 ++ b)).1 (processData s (buf ++ b)).1)) := by
   cases hcur : s.cur with
@@ -515,11 +518,11 @@ theorem processData_seg (s : S) (buf b : Bytes) (hwf : WF s) (hf : s.cfg.failByD
     | [] =>
       have e : processData s [] = (s, [], false) := by unfold processData; simp [hcur]
       rw [e]
-      exact Or.inr (Or.inr ⟨rfl, hst, hwf, rfl, Or.inl rfl⟩)
+      exact Or.inr (Or.inr ⟨rfl, hst, hwf, rfl, rfl, Or.inl rfl⟩)
     | [x] =>
       have e : processData s [x] = (s, [x], false) := by unfold processData; simp [hcur]
       rw [e]
-      exact Or.inr (Or.inr ⟨rfl, hst, hwf, rfl, Or.inl rfl⟩)
+      exact Or.inr (Or.inr ⟨rfl, hst, hwf, rfl, rfl, Or.inl rfl⟩)
     | o0 :: o1 :: t =>
       have e1 : processData s (o0 :: o1 :: t) = processHeader s o0 o1 (o0 :: o1 :: t) := by
         unfold processData; simp [hcur]
@@ -530,7 +533,7 @@ theorem processData_seg (s : S) (buf b : Bytes) (hwf : WF s) (hf : s.cfg.failByD
       · exact Or.inl hP
       · exact Or.inr (Or.inl ⟨hD.1, by rw [hD.2]; exact DeadSim.refl_of_closed _ hD.1⟩)
       · rw [hW]
-        refine Or.inr (Or.inr ⟨rfl, hst, hwf, rfl, Or.inl ?_⟩)
+        refine Or.inr (Or.inr ⟨rfl, hst, hwf, rfl, rfl, Or.inl ?_⟩)
         simp only
         exact e2
   | some h =>
@@ -550,10 +553,10 @@ theorem processData_seg (s : S) (buf b : Bytes) (hwf : WF s) (hf : s.cfg.failByD
         omega
       rcases processPayload_seg_part s h buf b hcur hwf hf hst hbuf hlen' with hD | hW
       · exact Or.inr (Or.inl hD)
-      · refine Or.inr (Or.inr ⟨hW.1, hW.2.1, hW.2.2.1, hW.2.2.2.1, ?_⟩)
-        rw [hW.2.2.2.2.1, List.nil_append, ← e1 (buf ++ b)]
+      · refine Or.inr (Or.inr ⟨hW.1, hW.2.1, hW.2.2.1, hW.2.2.2.1, hW.2.2.2.2.1, ?_⟩)
+        rw [hW.2.2.2.2.2.1, List.nil_append, ← e1 (buf ++ b)]
         rw [← e1 (buf ++ b)] at hW
-        exact hW.2.2.2.2.2
+        exact hW.2.2.2.2.2.2
 
 /-! ### `WF` is an invariant of the loop while the connection lives -/
 
@@ -613,7 +616,7 @@ theorem processPayload_WF (s : S) (h : Hdr) (buf : Bytes) (hcur : s.cur = some h
     by_cases hend : C.1.ptr = h.length
     · simp only [hend, if_true]
       have hcn := onFrameEnd_true_cur C.1 h
-      have hfc := onFrameEnd_false_closed C.1 h (by rw [ct.2.2.2]; exact hf)
+      have hfc := onFrameEnd_false_closed C.1 h (by rw [ct.2.2.2.1]; exact hf)
       generalize onFrameEnd C.1 h = r2 at hcn hfc
       by_cases h2 : r2.2 = true
       · simp only [h2, Bool.not_true, Bool.false_eq_true, if_false]
@@ -647,32 +650,40 @@ theorem drain_WF (F : Nat) (s : S) (buf : Bytes) (hwf : WF s) (hf : s.cfg.failBy
   | zero => exact Or.inr hwf
   | succ F ih =>
     rw [drain]
-    rcases processData_WF s buf hwf hf hst with hc | hw
-    · split
-      · rename_i hgo
-        simp only [Bool.and_eq_true, decide_eq_true_eq] at hgo
-        exact absurd hc hgo.2
-      · exact Or.inl hc
-    · split
-      · rename_i hgo
-        simp only [Bool.and_eq_true, decide_eq_true_eq] at hgo
-        exact ih _ _ hw (by rw [(processData_Ext s buf).cfg]; exact hf) hgo.2
-      · exact Or.inr hw
+    split
+    · exact Or.inr hwf
+    · dsimp only
+      rcases processData_WF s buf hwf hf hst with hc | hw
+      · split
+        · rename_i hgo
+          simp only [Bool.and_eq_true, decide_eq_true_eq] at hgo
+          exact absurd hc hgo.2
+        · exact Or.inl hc
+      · split
+        · rename_i hgo
+          simp only [Bool.and_eq_true, decide_eq_true_eq] at hgo
+          exact ih _ _ hw (by rw [(processData_Ext s buf).cfg]; exact hf) hgo.2
+        · exact Or.inr hw
 
 /-! ### the loop on `buf`, then on the rest plus `b`, versus the loop on `buf ++ b` (Lemma A) -/
 
-theorem drain_go (F : Nat) (s : S) (buf : Bytes) (h1 : (processData s buf).2.2 = true)
+theorem drain_clean (F : Nat) (s : S) (buf : Bytes) (hwc : s.wasClean = true) : drain (F + 1) s buf = (s, buf) := by
+  rw [drain]; simp [hwc]
+
+theorem drain_go (F : Nat) (s : S) (buf : Bytes) (hwc : s.wasClean = false) (h1 : (processData s buf).2.2 = true)
     (h2 : (processData s buf).1.st ≠ .closed) :
     drain (F + 1) s buf = drain F (processData s buf).1 (processData s buf).2.1 := by
-  rw [drain]; simp [h1, h2]
+  rw [drain]; simp [hwc, h1, h2]
 
-theorem drain_stop_flag (F : Nat) (s : S) (buf : Bytes) (h1 : (processData s buf).2.2 = false) :
+theorem drain_stop_flag (F : Nat) (s : S) (buf : Bytes) (hwc : s.wasClean = false)
+    (h1 : (processData s buf).2.2 = false) :
     drain (F + 1) s buf = ((processData s buf).1, (processData s buf).2.1) := by
-  rw [drain]; simp [h1]
+  rw [drain]; simp [hwc, h1]
 
-theorem drain_stop_closed (F : Nat) (s : S) (buf : Bytes) (h2 : (processData s buf).1.st = .closed) :
+theorem drain_stop_closed (F : Nat) (s : S) (buf : Bytes) (hwc : s.wasClean = false)
+    (h2 : (processData s buf).1.st = .closed) :
     drain (F + 1) s buf = ((processData s buf).1, (processData s buf).2.1) := by
-  rw [drain]; simp [h2]
+  rw [drain]; simp [hwc, h2]
 
 /-- equal results, or both connections over with the same history -/
 def SimR (x y : S × Bytes) : Prop := x = y ∨ DeadSim x.1 y.1
@@ -689,6 +700,15 @@ theorem drain_seg (F1 : Nat) : ∀ (s : S) (buf b : Bytes) (F3 : Nat), WF s → 
     cases F3 with
     | zero => omega
     | succ F3 =>
+      cases hwc : s.wasClean with
+      | true =>
+        -- the peer's close frame has been taken in: nothing is processed any more
+        rw [drain_clean F1 s buf hwc, drain_clean F3 s (buf ++ b) hwc]
+        refine ⟨fun hx => absurd hx hst, fun _ F2 hF2 => Or.inl ?_⟩
+        simp only at hF2 ⊢
+        obtain ⟨F2, rfl⟩ : ∃ F', F2 = F' + 1 := ⟨F2 - 1, by omega⟩
+        exact drain_clean F2 s (buf ++ b) hwc
+      | false =>
       have hcfg : (processData s buf).1.cfg = s.cfg := (processData_Ext s buf).cfg
       rcases processData_seg s buf b hwf hf hst hb hne with hP | hD | hW
       · -- (P)
@@ -696,26 +716,27 @@ theorem drain_seg (F1 : Nat) : ∀ (s : S) (buf b : Bytes) (F3 : Nat), WF s → 
         have hT := processData_true s (buf ++ b) hwf hf hst p3
         rw [p1, p2] at hT
         by_cases hcl : (processData s buf).1.st = .closed
-        · rw [drain_stop_closed F1 s buf hcl, drain_stop_closed F3 s (buf ++ b) (by rw [p1]; exact hcl)]
+        · rw [drain_stop_closed F1 s buf hwc hcl, drain_stop_closed F3 s (buf ++ b) hwc (by rw [p1]; exact hcl)]
           refine ⟨fun _ => ?_, fun hx => absurd hcl hx⟩
           simp only
           rw [p1]; exact DeadSim.refl_of_closed _ hcl
-        · rw [drain_go F3 s (buf ++ b) p3 (by rw [p1]; exact hcl), p1, p2]
+        · rw [drain_go F3 s (buf ++ b) hwc p3 (by rw [p1]; exact hcl), p1, p2]
           by_cases hfl : (processData s buf).2.2 = true
-          · rw [drain_go F1 s buf hfl hcl]
+          · rw [drain_go F1 s buf hwc hfl hcl]
             have hT1 := processData_true s buf hwf hf hst hfl
             exact ih _ _ b F3 hT1.2.1 (by rw [hcfg]; exact hf) hcl hb hT1.2.2 (by omega) (by omega)
           · have hfl' : (processData s buf).2.2 = false := by simpa using hfl
-            rw [drain_stop_flag F1 s buf hfl']
+            rw [drain_stop_flag F1 s buf hwc hfl']
             refine ⟨fun hx => absurd hx hcl, fun _ F2 hF2 => ?_⟩
             simp only at hF2 ⊢
             exact Or.inl (drain_fuel F2 F3 _ _ hT.2.1 (by rw [hcfg]; exact hf) hcl hF2 (by omega))
       · -- (D)
-        rw [drain_stop_closed F1 s buf hD.1, drain_stop_closed F3 s (buf ++ b) hD.2.2.1]
+        rw [drain_stop_closed F1 s buf hwc hD.1, drain_stop_closed F3 s (buf ++ b) hwc hD.2.2.1]
         exact ⟨fun _ => hD.2, fun hx => absurd hD.1 hx⟩
       · -- (W)
-        obtain ⟨w1, w2, w3, w4, w5⟩ := hW
-        rw [drain_stop_flag F1 s buf w1]
+        obtain ⟨w1, w2, w3, w4, wc, w5⟩ := hW
+        have hwc1 : (processData s buf).1.wasClean = false := by rw [wc]; exact hwc
+        rw [drain_stop_flag F1 s buf hwc w1]
         refine ⟨fun hx => absurd hx w2, fun _ F2 hF2 => ?_⟩
         simp only at hF2 ⊢
         cases F2 with
@@ -727,8 +748,8 @@ theorem drain_seg (F1 : Nat) : ∀ (s : S) (buf b : Bytes) (F3 : Nat), WF s → 
             · have hT := processData_true s (buf ++ b) hwf hf hst hgo.1
               have hTq := processData_true (processData s buf).1 ((processData s buf).2.1 ++ b) w3 hf1 w2
                 (by rw [e]; exact hgo.1)
-              rw [drain_go F3 s (buf ++ b) hgo.1 hgo.2,
-                drain_go F2 _ _ (by rw [e]; exact hgo.1) (by rw [e]; exact hgo.2), e]
+              rw [drain_go F3 s (buf ++ b) hwc hgo.1 hgo.2,
+                drain_go F2 _ _ hwc1 (by rw [e]; exact hgo.1) (by rw [e]; exact hgo.2), e]
               rw [e] at hTq
               refine Or.inl (drain_fuel F2 F3 _ _ hT.2.1 ?_ hgo.2 (by omega) (by omega))
               rw [(processData_Ext s (buf ++ b)).cfg]; exact hf
@@ -738,18 +759,18 @@ theorem drain_seg (F1 : Nat) : ∀ (s : S) (buf b : Bytes) (F3 : Nat), WF s → 
                 by_cases hx : (processData s (buf ++ b)).2.2 = true
                 · have : (processData s (buf ++ b)).1.st = .closed := by
                     apply Classical.byContradiction; intro hy; exact hgo ⟨hx, hy⟩
-                  exact drain_stop_closed F _ _ this
-                · exact drain_stop_flag F _ _ (by simpa using hx)
+                  exact drain_stop_closed F _ _ hwc this
+                · exact drain_stop_flag F _ _ hwc (by simpa using hx)
               have hstop2 : drain (F2 + 1) (processData s buf).1 ((processData s buf).2.1 ++ b)
                   = ((processData s (buf ++ b)).1, (processData s (buf ++ b)).2.1) := by
                 by_cases hx : (processData s (buf ++ b)).2.2 = true
                 · have : (processData s (buf ++ b)).1.st = .closed := by
                     apply Classical.byContradiction; intro hy; exact hgo ⟨hx, hy⟩
-                  rw [drain_stop_closed F2 _ _ (by rw [e]; exact this), e]
-                · rw [drain_stop_flag F2 _ _ (by rw [e]; simpa using hx), e]
+                  rw [drain_stop_closed F2 _ _ hwc1 (by rw [e]; exact this), e]
+                · rw [drain_stop_flag F2 _ _ hwc1 (by rw [e]; simpa using hx), e]
               rw [hstop F3, hstop2]
               exact Or.inl rfl
-          · rw [drain_stop_closed F2 _ _ d.1, drain_stop_closed F3 _ _ d.2.1]
+          · rw [drain_stop_closed F2 _ _ hwc1 d.1, drain_stop_closed F3 _ _ hwc d.2.1]
             exact Or.inr d
 
 end Abverif.Ws
